@@ -34,3 +34,14 @@ print(path)
 
 mk("C02-recursionerror-swallowed-by-regexp-compile", "C02.A.class",
    {"stratum": "A", "shape": "cb_forEach", "pend": "stmt", "try": "none", "site": "top", "probe": "regexp"}, 100000)
+
+# stratum R witness: a method kept from the evaluation that was stopped, used by a bounded one
+cell = {"stratum": "R", "method": "forEach", "first_use": "runaway", "wrap_try": False, "kept": True}
+first = "GA = [3, 1, 2]; var KM = GA.forEach; function rq(){ return 1 + rq(); return 0; }\nrq();\n'unreachable';"
+second = "var n = 0; for (var i = 0; i < 30; i++) { KM(function(x){ n++; }); } [n > 0, 'done'][1];"
+case = {"property": "C02", "seed": 0, "index": -1, "cell": cell, "world": {"tick": 1e-5, "epoch": 1000.0}, "M": 50000, "T_work": None,
+        "src": first, "src2": second}
+doc = {"property": "C02", "clause": "C02.A.scale", "signature": {"exact": sha1(c02.normalise(case)), "class": c02.features(case)}, "case": case}
+path = os.path.join(os.path.dirname(os.path.dirname(os.path.abspath(__file__))), "findings", "C02-kept-method-of-stopped-eval-fails-forever.json")
+json.dump(doc, open(path, "w"), indent=1, sort_keys=True)
+print(path)
